@@ -11,7 +11,7 @@ from __future__ import annotations
 import asyncio
 from typing import Any
 
-from . import vloop
+from . import uvrun, vloop
 from .fam_scope import INF, _dl, scenario_of  # noqa: F401  (scenario_of is re-exported)
 from .replay import Recorder, ScenarioController, ensure_repo_on_path
 
@@ -22,7 +22,7 @@ class _ClientError(Exception):
         self.ident = ident
 
 
-def run_scenario(scn: dict, *, eager: bool = False) -> dict:
+def run_scenario(scn: dict, *, eager: bool = False, uv: bool = False) -> dict:
     ensure_repo_on_path()
     import anyio
     from anyio.lowlevel import cancel_shielded_checkpoint, checkpoint
@@ -426,7 +426,7 @@ def run_scenario(scn: dict, *, eager: bool = False) -> dict:
             raise out
 
     async def main() -> None:
-        loop = st["loop"] = asyncio.get_running_loop()
+        loop = st["loop"] = uvrun.view(asyncio.get_running_loop())
         st["event"] = anyio.Event()
         st["rootscope"] = anyio.CancelScope()
         st["fut"] = loop.create_future()
@@ -435,7 +435,7 @@ def run_scenario(scn: dict, *, eager: bool = False) -> dict:
         st["tasks"][1] = task
         await st["fut"]
 
-    loop, _res, err = vloop.run(main, ctl, eager=eager, max_handles=5000)
+    loop, _res, err = (uvrun.run if uv else vloop.run)(main, ctl, eager=eager, max_handles=5000)
     rec.closed = True
     flags = {"deadlock": isinstance(err, vloop.Deadlock), "budget": loop.budget_exceeded,
              "error": None if err is None or isinstance(err, (vloop.Deadlock, vloop.BudgetExceeded))
